@@ -195,6 +195,7 @@ structure Net where
   call : List Nat := []
   cycle : Nat := 0
   nuid : Nat := 0
+  tapeDelay : Nat := 0
 deriving Repr, DecidableEq
 
 structure State where
@@ -245,6 +246,10 @@ def netDecode (n : Net) (p : Pkt) : Net × Bool :=
     let (t, neq) := strfu n.call p.data
     if neq ∧ n.cycle ≠ 1 then ({ n with call := t, name := [], cycle := 0 }, false)
     else ({ n with call := t }, false)
+  else if p.cls = 2 ∧ p.sub = 3 then
+    -- channel tape delay: `(buffer[1] & 31) * 60 + (buffer[0] & 63)`
+    if p.data.length = 2 then ({ n with tapeDelay := (p.data.getD 1 0 &&& 31) * 60 + (p.data.getD 0 0 &&& 63) }, false)
+    else (n, false)
   else (n, false)
 
 /-- `case 15` of `xds_separator` (the assertion is the first statement of `xds_decoder`) -/
